@@ -110,6 +110,37 @@
 //     later measurements are made (otherwise the reported cumulative value
 //     stops being the running total after the fact); checked for every Collect
 //     that was given a fresh ResourceMetrics.
+//   - What Collect leaves in the ResourceMetrics - everything reachable from
+//     it: histogram bounds, bucket counts, data point slices, the Metrics and
+//     ScopeMetrics slices - belongs to the caller ("do not allow modification
+//     of our copy" is the library's own rule when it fills it). In half of the
+//     histories the consumer of the collected data, AFTER having read it (the
+//     oracle's snapshot is taken first), writes over some kinds of those
+//     slices in place (unit conversion, zeroing, reversing, NaN; never adding
+//     or removing an element); Collect may be handed the written-over memory
+//     again. That is not an event of the measurement history: every clause
+//     keeps applying unchanged to the later collections of both readers, and
+//     an output that was NOT written over must still read the same at the end
+//     (the outputs are the caller's, separately). No clause is added.
+//   - Measurements made by several goroutines at once ("crec" step: 2..8
+//     goroutines released together by a spin barrier, each with its own list
+//     of measurements, joined before the history goes on) are measurements of
+//     the cycle like any others: sums, counts and buckets do not depend on
+//     the order in which they land (exact arithmetic, see above), so the
+//     oracle stays schedule independent. For a synchronous gauge "the last
+//     value recorded in the cycle" is then the last record of ONE of the
+//     goroutines that recorded to the stream (any linearisation ends with one
+//     of them). Most of a step's measurements go to one stream, so that right
+//     after a collection several goroutines make the first measurement of an
+//     attribute set at once (for the delta reader every cycle starts afresh).
+//   - Measurements made while the two readers collect ("rcol" step: 1..4
+//     recording goroutines and one Collect per reader released together):
+//     each such measurement belongs, per reader, to that collection or to the
+//     next. For the streams touched, the cumulative-vs-running-total
+//     comparison, the "cumulative reports what delta reports" rule and the
+//     gauge rule are suspended for THAT cycle only; the deltas keep being
+//     accumulated and the comparison resumes, exactly, with the next
+//     collection (all goroutines were joined before it).
 package c08
 
 import (
@@ -397,6 +428,10 @@ type Op struct {
 	// callback of observable Inst, Via j >= 1: multi slot j-1 - behaves per
 	// Mode: 0 succeeds, 1 returns an error before observing, 2 observes, then
 	// returns an error; for the next N collection steps, N = 0: until changed),
+	// "crec" (concurrent records: len(G) goroutines, released together, each
+	// making its own measurements on sync instruments; joined before the next step),
+	// "rcol" (records during collection: the goroutines of G and one Collect of
+	// each reader, each into a fresh ResourceMetrics, are released together),
 	// "burst" (N = 2..3 goroutines call Collect on reader R ("d" / "c") at
 	// once, each with its own ResourceMetrics, every observing callback
 	// executing vk.Perturb(Delay) after its first observation; the other
@@ -429,6 +464,15 @@ type Op struct {
 	// (obtained without callback options), which are then registered.
 	Sp    int  `json:"sp,omitempty"`
 	Again bool `json:"again,omitempty"`
+	// collect / burst: DScr / CScr: the kinds of slices (scr* bits) the consumer
+	// of the delta / cumulative reader's output writes over in place after
+	// having read it, Style: what it writes (see scribble).
+	DScr  int `json:"dscr,omitempty"`
+	CScr  int `json:"cscr,omitempty"`
+	Style int `json:"style,omitempty"`
+	// crec: goroutine g makes the measurements G[g] in order; all goroutines
+	// are released together and joined before the next step.
+	G [][]Rec `json:"g,omitempty"`
 }
 
 const rmPool = 3
@@ -719,6 +763,25 @@ func gen(t *rapid.T) Case {
 	// pool shared by both readers.
 	rmMode := rapid.SampledFrom([]string{"fresh", "own", "own", "pool", "pool"}).Draw(t, "rm_mode")
 	c.Reuse = rmMode == "own" || (rmMode == "pool" && rapid.Bool().Draw(t, "reuse"))
+	// What the consumer of the collected data does with it once it has read
+	// it: nothing (half of the histories), or it writes over some kinds of the
+	// slices it was handed, in place.
+	scribbler := rapid.Bool().Draw(t, "consumer_scribbles")
+	genScr := func(t *rapid.T, op *Op) {
+		if !scribbler {
+			return
+		}
+		masks := []int{0, scrAll, scrAll, scrBounds, scrCounts, scrBounds | scrCounts, scrPoints, scrMetrics, scrScopes, -1}
+		draw := func(label string) int {
+			m := rapid.SampledFrom(masks).Draw(t, label)
+			if m < 0 {
+				m = rapid.IntRange(1, scrAll).Draw(t, label+"_bits")
+			}
+			return m
+		}
+		op.DScr, op.CScr = draw("dscr"), draw("cscr")
+		op.Style = rapid.IntRange(0, 3).Draw(t, "scr_style")
+	}
 	genCollect := func(t *rapid.T) Op {
 		op := Op{K: "collect", CumFirst: rapid.Bool().Draw(t, "cum_first")}
 		if rmMode == "pool" {
@@ -726,6 +789,7 @@ func gen(t *rapid.T) Case {
 			op.DRM = rapid.SampledFrom(slots).Draw(t, "drm")
 			op.CRM = rapid.SampledFrom(slots).Draw(t, "crm")
 		}
+		genScr(t, &op)
 		return op
 	}
 	c.Bounds = make([][]vk.F64, nBounds)
@@ -919,8 +983,70 @@ func gen(t *rapid.T) Case {
 		burstW = 0
 	}
 	hugeUsed := map[[2]int]int{} // per sync stream; rebuilt on every (re)generation of the case
+	genRecValue := func(t *rapid.T, inst, set int) (vk.F64, int64) {
+		d := ss[inst]
+		v := genSyncValue(d.syncDef).Draw(t, "v")
+		if !d.float && hugeUsed[[2]int{inst, set}] < maxHugePerStream && rapid.IntRange(0, 5).Draw(t, "rec_huge") == 0 {
+			hugeUsed[[2]int{inst, set}]++
+			return 0, genHuge(t, d.kind != kCounter)
+		}
+		return v, 0
+	}
+	// Concurrent records: 2..8 goroutines with 1..6 measurements each. Most of
+	// them (and mostly the first of each goroutine) go to one focus stream, so
+	// that several goroutines make the first measurement of an attribute set
+	// in the cycle at the same moment; the rest goes to any active stream.
+	genVolley := func(t *rapid.T, kind string) Op {
+		op := Op{K: kind}
+		fInst := rapid.SampledFrom(syncAct).Draw(t, "focus_inst")
+		fSet := rapid.IntRange(0, c.NSets-1).Draw(t, "focus_set")
+		n := rapid.SampledFrom([]int{2, 2, 3, 4, 4, 6, 8}).Draw(t, "goroutines")
+		if kind == "rcol" {
+			n = rapid.IntRange(1, 4).Draw(t, "recorders")
+		}
+		for g := 0; g < n; g++ {
+			m := rapid.IntRange(1, 6).Draw(t, "recs")
+			recs := make([]Rec, 0, m)
+			for k := 0; k < m; k++ {
+				r := Rec{Inst: fInst, Set: fSet}
+				if rapid.IntRange(0, 9).Draw(t, "off_focus") >= 7 {
+					r.Inst = rapid.SampledFrom(syncAct).Draw(t, "inst")
+					r.Set = rapid.IntRange(0, c.NSets-1).Draw(t, "set")
+				}
+				if kind == "rcol" {
+					// no huge values: which cycle the measurement lands in is open
+					r.V = genSyncValue(ss[r.Inst].syncDef).Draw(t, "v")
+				} else {
+					r.V, r.I = genRecValue(t, r.Inst, r.Set)
+				}
+				r.Sp = genSpelling.Draw(t, "sp")
+				recs = append(recs, r)
+			}
+			op.G = append(op.G, recs)
+		}
+		return op
+	}
+	// How the history records: one measurement at a time only, mixed, or
+	// mostly by concurrent-record steps (every one of which, right after a
+	// collection, is a concurrent first measurement for the delta reader).
+	crecW := 0
+	if len(syncAct) > 0 {
+		crecW = rapid.SampledFrom([]int{0, 6, 6, 20}).Draw(t, "crec_weight")
+	}
+	// Records made while both readers collect (1..4 recording goroutines and
+	// the two Collect calls start together), in half of the histories.
+	rcolW := 0
+	if len(syncAct) > 0 {
+		rcolW = rapid.SampledFrom([]int{0, 0, 3, 8}).Draw(t, "rcol_weight")
+	}
 	step := rapid.Custom(func(t *rapid.T) Op {
 		w := rapid.IntRange(0, 99).Draw(t, "op")
+		if crecW > 0 && w >= 100-crecW {
+			return genVolley(t, "crec")
+		}
+		if rcolW > 0 && w >= 100-crecW-rcolW {
+			return genVolley(t, "rcol")
+		}
 		switch {
 		case w < 24 || (len(syncAct) == 0 && w >= 24+planW+regW+failW+burstW):
 			return genCollect(t)
@@ -943,22 +1069,19 @@ func gen(t *rapid.T) Case {
 			}
 			return op
 		case w < 24+planW+regW+failW+burstW:
-			return Op{K: "burst",
+			op := Op{K: "burst",
 				R:        rapid.SampledFrom([]string{"d", "c"}).Draw(t, "burst_reader"),
 				N:        rapid.IntRange(2, 3).Draw(t, "burst_n"),
 				Delay:    rapid.SampledFrom([]int{1, 2, 3, 3, 4}).Draw(t, "burst_delay"),
 				CumFirst: rapid.Bool().Draw(t, "other_first")}
+			genScr(t, &op)
+			return op
 		default:
 			inst := rapid.SampledFrom(syncAct).Draw(t, "inst")
 			op := Op{K: "rec", Inst: inst,
-				Set: rapid.IntRange(0, c.NSets-1).Draw(t, "set"),
-				V:   genSyncValue(ss[inst].syncDef).Draw(t, "v"),
-				Sp:  genSpelling.Draw(t, "sp"), Again: rapid.IntRange(0, 7).Draw(t, "again") == 0}
-			d := ss[inst]
-			if !d.float && hugeUsed[[2]int{inst, op.Set}] < maxHugePerStream && rapid.IntRange(0, 5).Draw(t, "rec_huge") == 0 {
-				hugeUsed[[2]int{inst, op.Set}]++
-				op.V, op.I = 0, genHuge(t, d.kind != kCounter)
-			}
+				Set: rapid.IntRange(0, c.NSets-1).Draw(t, "set")}
+			op.V, op.I = genRecValue(t, inst, op.Set)
+			op.Sp, op.Again = genSpelling.Draw(t, "sp"), rapid.IntRange(0, 7).Draw(t, "again") == 0
 			return op
 		}
 	})
@@ -977,6 +1100,8 @@ func TestDeltaCumulative(t *testing.T) {
 			"in half of the histories 1..3 further scopes (mostly of the SAME scope name, differing in version / schema URL / scope attributes) and 1..4 twin instruments (same name, kind, number type as an active instrument; in another scope, or in the same scope under another unit / description), RegisterCallback callbacks per meter (incl. mirror-image callbacks on the twins and observations for the unregistered twin); " +
 			"attribute options spelled as WithAttributeSet / WithAttributes / split over two options / duplicate key overridden; record through / register with a meter and instruments obtained once more; " +
 			"int64 values up to MaxInt64/4 around / beyond 2^53 mixed with small ones, float64 values exactly summable; setObservationPlan (observable counter / up-down / gauge fed by instrument callbacks and by RegisterCallback callbacks, incl. observations for instruments a callback is not registered for), " +
+			"concurrent-record steps (2..8 goroutines released together, 1..6 measurements each, mostly on one stream: concurrent FIRST measurements of a set in the cycle / ever; every sync kind), records-during-collection steps (1..4 recording goroutines + one Collect per reader released together); " +
+			"in half of the histories the consumer of each collected ResourceMetrics writes over generated kinds of the slices it was handed (histogram bounds, bucket counts incl. exponential, data point / Metrics / ScopeMetrics elements; 4 styles) after reading it, incl. outputs that are handed back to Collect; " +
 			"register / unregister callback, callbacks that return an error for 1..3 collection steps (before or after observing), concurrent-collect steps (2..3 goroutines Collect on one reader at once, callbacks perturbed by Gosched / 20us..1ms sleeps), collectBoth (each Collect given a fresh ResourceMetrics, the reader's own previous output or a pool slot either reader filled before); 1..5 attribute sets from a fixed pool; " +
 			"non-trivial = >= 3 collections and (a stream that is reported, then absent for a cycle, then reported again, or a multi-instrument callback that observed in a cycle and is unregistered before a later one); distinct = distinct case encodings",
 		Quick: 8000, Thorough: 120000,
